@@ -262,6 +262,45 @@ async fn tcp_info_after_peer_reset() {
 }
 
 
+/// tcp.accept.* [C09]: the TCP acceptor (`impl Accept for TcpListener`) hands out, for a peer that reset its
+/// connection while it sat in the listen backlog and for an ordinary peer alike, `Ok(stream)` - never an error of its
+/// own - and the stream answers `info()` / `peer_addr()` from the remembered address, which is the peer's.
+#[cfg(feature = "stream")]
+#[tokio::test]
+async fn tcp_accept_through_trait() {
+    use crate::info::HasConnectionInfo as _;
+    let mut listener = crate::stream::tcp::TcpListener::bind("127.0.0.1:0").await.unwrap();
+    let addr = listener.local_addr().unwrap();
+    // nothing to accept: Pending, not an error
+    assert!(noop_cx_poll_accept(&mut listener).is_pending(), "an idle listener must answer Pending");
+    let s = std::net::TcpStream::connect(addr).unwrap();
+    let sock = socket2::Socket::from(s);
+    sock.set_linger(Some(std::time::Duration::ZERO)).unwrap();
+    drop(sock);
+    tokio::time::sleep(std::time::Duration::from_millis(50)).await;
+    let live = std::net::TcpStream::connect(addr).unwrap();
+    let live_addr = live.local_addr().unwrap();
+    for k in 0..2 {
+        let r = tokio::time::timeout(std::time::Duration::from_secs(5), poll_fn(|cx| Pin::new(&mut listener).poll_accept(cx)))
+            .await
+            .expect("accept timed out");
+        let stream = r.expect("the listener is intact: the acceptor must not report an error");
+        let info = std::panic::catch_unwind(std::panic::AssertUnwindSafe(|| stream.info()));
+        assert!(info.is_ok(), "info() of accepted stream {k} panicked");
+        assert!(stream.peer_addr().is_ok(), "peer_addr() of accepted stream {k} consulted the OS and failed");
+        if k == 1 {
+            assert_eq!(stream.peer_addr().unwrap(), live_addr, "the remembered peer address is not the peer's");
+        }
+    }
+}
+
+#[cfg(feature = "stream")]
+fn noop_cx_poll_accept(l: &mut crate::stream::tcp::TcpListener) -> Poll<std::io::Result<crate::stream::tcp::TcpStream>> {
+    let waker = futures_util::task::noop_waker();
+    let mut cx = Context::from_waker(&waker);
+    Pin::new(l).poll_accept(&mut cx)
+}
+
 /// acc.pending_registered / acc.skip_only_dead [C09]: any number of stale connect requests in front of a live one -
 /// one, a few, a whole queue (the channel holds 32), more than a queue - never stalls or ends the acceptor
 #[tokio::test]
